@@ -6,14 +6,16 @@
 (* deeper ones.  Every distinct state is written once to cases.ndjson.                  *)
 EXTENDS SchemaUniverse, Json, CSV
 
-CONSTANTS K, KO, W
+CONSTANTS K, KO, W,
+          Ext,      \* TRUE: also the keyword instances outside the oracle (formats, patterns, discriminator)
+          ValSet    \* "plain" | "ext" | "marker": which value list goes with the schemas
 
 VARIABLES s, own, wraps
 vars == <<s, own, wraps>>
 
 Init == s = Empty /\ own = 0 /\ wraps = 0
 
-AddKw == \E a \in (IF wraps = 0 THEN Atoms ELSE OuterAtoms) :
+AddKw == \E a \in (IF wraps = 0 THEN (IF Ext THEN Atoms \cup ExtAtoms ELSE Atoms) ELSE OuterAtoms) :
             /\ own < (IF wraps = 0 THEN K ELSE KO)
             /\ CanAdd(s, a)
             /\ s' = With(s, a) /\ own' = own + 1 /\ UNCHANGED wraps
@@ -28,6 +30,7 @@ Spec == Init /\ [][Next]_vars
 Emit == CSVWrite("%1$s", <<ToJson([s |-> s])>>, "cases.ndjson")
 
 (* emit the value list once (line i = Vals[i]) *)
+TheVals == CASE ValSet = "plain" -> Vals [] ValSet = "ext" -> Vals \o VX [] ValSet = "marker" -> MVals
 EmitVals == (s = Empty /\ wraps = 0) =>
-               \A i \in DOMAIN Vals : CSVWrite("%1$s", <<ToJson(Vals[i])>>, "vals.ndjson")
+               \A i \in DOMAIN TheVals : CSVWrite("%1$s", <<ToJson(TheVals[i])>>, "vals.ndjson")
 =============================================================================
